@@ -95,7 +95,9 @@ GenUpd(k) ==
   LET dense == (k % 2 = 0)
       \* (every ninth tuple starts from nothing stored: the first write of a resource)
       old == IF k % 9 = 4 THEN Empty ELSE IF dense THEN RandMsg(k) ELSE RandSparse(k)
-      wr  == IF dense THEN RandMsg(k) ELSE RandSparse(k)
+      \* (every thirteenth tuple writes the stored message again: "nothing changes" still applies the reset mask
+      \*  and FieldMask append semantics)
+      wr  == IF k % 13 = 5 THEN old ELSE IF dense THEN RandMsg(k) ELSE RandSparse(k)
       mk  == k % 7
       M   == CASE mk = 0 -> NilMask
                [] mk = 1 -> Mask(RandomElement(Singles))
@@ -185,6 +187,8 @@ NameFails(t) ==
   \cup (IF (\A p \in K : ClearlyWritable(p, W)) /\ t.err # "OK" /\ t.panic = "" THEN {"good-mask-rejected"} ELSE {})
   \cup (IF t.err # "OK" /\ t.post # t.old THEN {"failed-write-changed-store"} ELSE {})
   \cup (IF t.err = "OK" /\ \E q \in NameLeaves : ~InScope(q, M, W) /\ NameVal(t.post, q) # NameVal(t.old, q) THEN {"frame"} ELSE {})
+  \* a mask is judged against the message type of the write at hand: these paths name nothing in the all-kinds message
+  \cup (IF t.via = "updater" /\ t.panic = "" /\ t.crossErr # "InvalidArgument" THEN {"mask-of-another-type-accepted"} ELSE {})
 
 \* reads over the same schema: exactly the leaves covered by the mask (segment-wise) survive
 RNameFails(t) ==
